@@ -199,10 +199,11 @@ class _C20(Spec):
         reqs = []
         for cfg in CFGS:
             reqs += ym_blocks(cfg, -6000, 12001)
-        from .cal import other_instance_groups, after_abuse_groups
+        from .cal import other_instance_groups, after_abuse_groups, toggle_groups
         return [Stream("meta", ["byname meta"]), Stream("cal-years", reqs, weight=_weight, refine=refine),
                 Stream("cal-other-instance", None, weight=_weight, refine=refine, groups=other_instance_groups(("ym",))),
-                Stream("cal-after-ill-formed-calls", None, weight=_weight, groups=after_abuse_groups(rng, ("ym",), tier))]
+                Stream("cal-after-ill-formed-calls", None, weight=_weight, groups=after_abuse_groups(rng, ("ym",), tier)),
+                Stream("cal-after-many-switches", None, weight=_weight, groups=toggle_groups(rng, ("ym",), tier))]
 
     def exhaustive(self, tier):
         return True
